@@ -55,6 +55,12 @@ pub enum Op {
     PScan { key: usize, by_id: bool, start: Option<u64>, end: Option<u64>, count: Option<u64> },
     SVer { stream: usize, explicit_key: bool },
     PSeq { key: usize, by_id: bool },
+    /// EPSUB <partition> FROM <from> WINDOW <window> on the partition of key `key`
+    PSub { key: usize, from: u64, window: u64 },
+    /// ESUB <stream> [PARTITION_KEY k] FROM <from> WINDOW <window>
+    SSub { stream: usize, from: u64, window: u64 },
+    /// EACK of everything received so far on subscription `sub` (or of an unknown subscription)
+    Ack { sub: usize, unknown: bool },
     Ping,
     /// a request that must be rejected with an error reply
     Invalid { kind: u64 },
@@ -100,7 +106,7 @@ pub fn plan(tier: Tier, seed: u64) -> Value {
     let nops = 8 + rng.usize_below(match tier { Tier::Quick => 30, Tier::Thorough => 70 });
     let mut ops = Vec::new();
     for _ in 0..nops {
-        let op = match rng.weighted(&[8, 6, 4, 5, 4, 2, 2, 1, 3]) {
+        let op = match rng.weighted(&[8, 6, 4, 5, 4, 2, 2, 1, 3, 1, 1, 2]) {
             0 => Op::Append { ev: gen_ev(&mut rng, streams), explicit_key: rng.chance(1, 2), then: if rng.chance(1, 3) { 1 + rng.below(3) as u8 } else { 0 } },
             1 => {
                 let n = 1 + rng.usize_below(4);
@@ -124,6 +130,9 @@ pub fn plan(tier: Tier, seed: u64) -> Value {
             5 => Op::SVer { stream: rng.usize_below(streams), explicit_key: rng.chance(1, 2) },
             6 => Op::PSeq { key: rng.usize_below(2), by_id: rng.chance(1, 2) },
             7 => Op::Ping,
+            9 => Op::PSub { key: rng.usize_below(2), from: rng.below(4), window: *rng.pick(&[1u64, 2, 1000]) },
+            10 => Op::SSub { stream: rng.usize_below(streams), from: rng.below(3), window: *rng.pick(&[1u64, 3, 1000]) },
+            11 => Op::Ack { sub: rng.usize_below(4), unknown: rng.chance(1, 8) },
             _ => Op::Invalid { kind: rng.below(12) },
         };
         ops.push(op);
@@ -279,6 +288,8 @@ struct Model {
 struct Client {
     stream: DuplexStream,
     inbuf: Vec<u8>,
+    /// push frames (subscription traffic) met while waiting for replies
+    pushes: Vec<V>,
 }
 
 impl Client {
@@ -364,7 +375,7 @@ fn run(plan: C22Plan) -> RunOutcome {
             *done.lock().unwrap() = Some(format!("{res:?}"));
         });
     }
-    let mut client = Client { stream: client_end, inbuf: Vec::new() };
+    let mut client = Client { stream: client_end, inbuf: Vec::new(), pushes: Vec::new() };
     let mut model = Model::default();
     let mut rng = Rng::new(plan.seed ^ 0x2222);
     let stream_names: Vec<String> = (0..plan.streams).map(|i| format!("acct-{i}")).collect();
@@ -420,6 +431,10 @@ fn run(plan: C22Plan) -> RunOutcome {
             match decode(&client.inbuf) {
                 Ok(Some((v, used))) => {
                     client.inbuf.drain(..used);
+                    if matches!(v, V::Push(_)) {
+                        client.pushes.push(v);
+                        continue;
+                    }
                     return Ok(v);
                 }
                 Ok(None) => {}
@@ -441,6 +456,10 @@ fn run(plan: C22Plan) -> RunOutcome {
             match decode(&client.inbuf) {
                 Ok(Some((v, used))) => {
                     client.inbuf.drain(..used);
+                    if matches!(v, V::Push(_)) {
+                        client.pushes.push(v);
+                        continue;
+                    }
                     return Ok(v);
                 }
                 Ok(None) => {}
@@ -457,6 +476,7 @@ fn run(plan: C22Plan) -> RunOutcome {
     };
 
     let mut known_ids: Vec<Uuid> = Vec::new();
+    let mut subs: Vec<RSub> = Vec::new();
     for (opi, op) in plan.ops.iter().enumerate() {
         sched.push_str(&format!("{op:?}"));
         out.steps += 1;
@@ -865,6 +885,63 @@ fn run(plan: C22Plan) -> RunOutcome {
                     Err(e) => conn_error = Some(e),
                 }
             }
+            Op::PSub { key, from, window } => {
+                if subs.len() >= 4 {
+                    continue;
+                }
+                let partition = uuid_to_partition_hash(keys[*key]) % plan.partitions;
+                let args = vec![b"EPSUB".to_vec(), partition.to_string().into_bytes(), b"FROM".to_vec(), from.to_string().into_bytes(), b"WINDOW".to_vec(), window.to_string().into_bytes()];
+                match exchange_with(&mut cluster, &mut client, &mut rng, args, None) {
+                    Ok(V::Str(id)) => subs.push(RSub { id: String::from_utf8_lossy(&id).to_string(), partition, stream: None, from: *from, window: *window, received: Vec::new(), acked: None }),
+                    Ok(other) => report("subscribe-rejected", "EPSUB", format!("op {opi}: EPSUB answered {other:?}")),
+                    Err(e) => conn_error = Some(e),
+                }
+            }
+            Op::SSub { stream, from, window } => {
+                if subs.len() >= 4 {
+                    continue;
+                }
+                let sname = stream_names[*stream].clone();
+                let pk = home_key(*stream);
+                let partition = uuid_to_partition_hash(pk) % plan.partitions;
+                let mut args = vec![b"ESUB".to_vec(), sname.clone().into_bytes()];
+                if home_is_explicit(*stream) {
+                    args.push(b"PARTITION_KEY".to_vec());
+                    args.push(pk.to_string().into_bytes());
+                }
+                args.extend([b"FROM".to_vec(), from.to_string().into_bytes(), b"WINDOW".to_vec(), window.to_string().into_bytes()]);
+                match exchange_with(&mut cluster, &mut client, &mut rng, args, None) {
+                    Ok(V::Str(id)) => subs.push(RSub { id: String::from_utf8_lossy(&id).to_string(), partition, stream: Some(sname), from: *from, window: *window, received: Vec::new(), acked: None }),
+                    Ok(other) => report("subscribe-rejected", "ESUB", format!("op {opi}: ESUB answered {other:?}")),
+                    Err(e) => conn_error = Some(e),
+                }
+            }
+            Op::Ack { sub, unknown } => {
+                if *unknown {
+                    match exchange_with(&mut cluster, &mut client, &mut rng, vec![b"EACK".to_vec(), Uuid::from_u128(0x1234 + opi as u128).to_string().into_bytes(), b"0".to_vec()], None) {
+                        Ok(v) => {
+                            if !v.is_err() {
+                                report("invalid-request-accepted", "EACK", format!("op {opi}: EACK of an unknown subscription answered {v:?}"));
+                            }
+                        }
+                        Err(e) => conn_error = Some(e),
+                    }
+                } else if let Some(sb) = subs.get_mut(*sub) {
+                    if !sb.received.is_empty() {
+                        let upto = sb.received.len() as u64 - 1;
+                        let id = sb.id.clone();
+                        match exchange_with(&mut cluster, &mut client, &mut rng, vec![b"EACK".to_vec(), id.into_bytes(), upto.to_string().into_bytes()], None) {
+                            Ok(v) => {
+                                if v.is_err() {
+                                    report("ack-rejected", "EACK", format!("op {opi}: EACK {upto} answered {v:?}"));
+                                }
+                                subs[*sub].acked = Some(upto);
+                            }
+                            Err(e) => conn_error = Some(e),
+                        }
+                    }
+                }
+            }
             Op::Invalid { kind } => {
                 let s = stream_names[0].clone().into_bytes();
                 let args: Vec<Vec<u8>> = match kind {
@@ -893,6 +970,19 @@ fn run(plan: C22Plan) -> RunOutcome {
                 }
             }
         }
+        // subscription traffic: whatever arrived meanwhile
+        cluster.settle();
+        let _ = client.read_available();
+        while let Ok(Some((v, used))) = decode(&client.inbuf) {
+            if !matches!(v, V::Push(_)) {
+                break;
+            }
+            client.inbuf.drain(..used);
+            client.pushes.push(v);
+        }
+        for pv in std::mem::take(&mut client.pushes) {
+            check_push(&report, opi, &pv, &mut subs, &model, plan.buckets);
+        }
         if let Some(e) = conn_error {
             if e != "model diverged" {
                 let served = server_done.lock().unwrap().clone();
@@ -903,6 +993,44 @@ fn run(plan: C22Plan) -> RunOutcome {
         if !violations.borrow().is_empty() {
             break;
         }
+    }
+    // the subscriber acknowledges everything: every stored event from the start position arrives
+    if violations.borrow().is_empty() && !subs.is_empty() {
+        for _round in 0..400 {
+            cluster.settle();
+            let _ = client.read_available();
+            while let Ok(Some((v, used))) = decode(&client.inbuf) {
+                client.inbuf.drain(..used);
+                if matches!(v, V::Push(_)) {
+                    client.pushes.push(v);
+                }
+            }
+            for pv in std::mem::take(&mut client.pushes) {
+                check_push(&report, plan.ops.len(), &pv, &mut subs, &model, plan.buckets);
+            }
+            let mut progressed = false;
+            for i in 0..subs.len() {
+                let n = subs[i].received.len() as u64;
+                if n > 0 && subs[i].acked.map(|a| a + 1 < n).unwrap_or(true) {
+                    let id = subs[i].id.clone();
+                    if exchange_with(&mut cluster, &mut client, &mut rng, vec![b"EACK".to_vec(), id.into_bytes(), (n - 1).to_string().into_bytes()], None).is_ok() {
+                        subs[i].acked = Some(n - 1);
+                        progressed = true;
+                    }
+                }
+            }
+            if !progressed {
+                break;
+            }
+        }
+        for sb in &subs {
+            let expected = expected_for(sb, &model, plan.buckets);
+            if sb.received.len() != expected.len() {
+                report("subscription-incomplete", if sb.stream.is_some() { "ESUB" } else { "EPSUB" }, format!("subscription from {} (window {}) received {} events; the model has {} from there", sb.from, sb.window, sb.received.len(), expected.len()));
+            }
+        }
+        *probes.entry("subscriptions".into()).or_insert(0) += subs.len() as u64;
+        *probes.entry("subscription_messages".into()).or_insert(0) += subs.iter().map(|s| s.received.len() as u64).sum::<u64>();
     }
     out.violations = violations.into_inner();
     if model.events.len() >= 3 && model.next_seq.len() >= 1 {
@@ -979,5 +1107,56 @@ fn check_scan(report: &dyn Fn(&str, &str, String), opi: usize, cmd: &str, in_ran
     }
     if in_range.len() > expected.len() && !has_more {
         report("has-more-hides-events", cmd, format!("op {opi}: {cmd} returned {} of {} events in the requested range with has_more = false", expected.len(), in_range.len()));
+    }
+}
+
+struct RSub {
+    id: String,
+    partition: u16,
+    stream: Option<String>,
+    from: u64,
+    window: u64,
+    /// event ids in the order received
+    received: Vec<String>,
+    acked: Option<u64>,
+}
+
+/// the model events a subscription has to deliver, in order
+fn expected_for<'a>(sb: &RSub, model: &'a Model, buckets: u16) -> Vec<&'a MEvent> {
+    let mut v: Vec<&MEvent> = match &sb.stream {
+        None => model.events.iter().filter(|e| e.partition == sb.partition && e.seq >= sb.from).collect(),
+        Some(s) => model.events.iter().filter(|e| e.partition % buckets == sb.partition % buckets && &e.stream == s && e.version >= sb.from).collect(),
+    };
+    v.sort_by_key(|e| if sb.stream.is_some() { e.version } else { e.seq });
+    v
+}
+
+fn check_push(report: &dyn Fn(&str, &str, String), opi: usize, pv: &V, subs: &mut [RSub], model: &Model, buckets: u16) {
+    let V::Push(items) = pv else { return };
+    let kind = items.first().and_then(|x| x.text()).unwrap_or_default();
+    if kind != "message" {
+        return;
+    }
+    let id = items.get(1).and_then(|x| x.text()).unwrap_or_default();
+    let cursor = items.get(2).and_then(|x| x.int());
+    let Some(ev) = items.get(3) else { return };
+    let Some(sb) = subs.iter_mut().find(|s| s.id == id) else {
+        report("message-for-unknown-subscription", "push", format!("op {opi}: message for subscription {id} that this connection never created"));
+        return;
+    };
+    let cmd = if sb.stream.is_some() { "ESUB" } else { "EPSUB" };
+    if cursor != Some(sb.received.len() as i64) {
+        report("cursor-not-consecutive", cmd, format!("op {opi}: message cursor {cursor:?} as delivery number {}", sb.received.len()));
+    }
+    let idx = sb.received.len();
+    let expected = expected_for(sb, model, buckets);
+    match expected.get(idx) {
+        Some(m) => check_event(report, opi, cmd, m, ev),
+        None => report("unexpected-message", cmd, format!("op {opi}: subscription from {} received a {}th event; the model has only {} from there", sb.from, idx + 1, expected.len())),
+    }
+    sb.received.push(ev.get("event_id").and_then(|x| x.text()).unwrap_or_default());
+    let outstanding = sb.received.len() as u64 - sb.acked.map(|a| (a + 1).min(sb.received.len() as u64)).unwrap_or(0);
+    if outstanding > sb.window {
+        report("window-exceeded", cmd, format!("op {opi}: {outstanding} unacknowledged messages with WINDOW {}", sb.window));
     }
 }
